@@ -576,7 +576,7 @@ class Interp:
                 return Tup([self.eval_operand(st, x) for x in parts])
         if rhs.startswith("[") and rhs.endswith("]"):
             return self.ctx.fresh(U, "arr")
-        if re.fullmatch(r"[\w:<>&', ]+", rhs):
+        if re.fullmatch(r"[\w:<>&', \(\)\[\]\*]+", rhs) and re.match(r"[A-Za-z_]", rhs):
             last = rhs.rsplit("::", 1)[-1]
             if last in VARIANT_ID:
                 return self.construct(st, last, [])
